@@ -285,6 +285,8 @@ def main():
                 os.makedirs(os.path.dirname(wpath), exist_ok=True)
                 open(wpath, "w").write(logtxt[-200000:])
                 violations.append(("crash:" + re.sub(r"0x[0-9a-f]+|\d+", "N", m.group(1))[:100], f"child process died: {m.group(1)[:200]}", {"log": wpath}, pname, sh))
+            elif part.get("race") and "race detected during execution of test" in logtxt:
+                pass  # the race reports themselves are parsed from the GORACE log files below
             else:
                 fm = re.findall(r"^\s+\S+_test\.go:\d+: .*$", logtxt, re.M)
                 infra.append(f"child {pname}/{sh} failed (rc={rc}) with no violation recorded: {(fm or ['see ' + log])[0][:300]}")
